@@ -109,8 +109,6 @@ pub use mmap::MmapStorage;
 pub use page::{validate_page, PageHeader, PageType};
 pub use wal::{SyncMode, Wal, WalFrameHeader, WalFrameType, WalSegment, WAL_FRAME_HEADER_SIZE, DEFAULT_CHECKPOINT_THRESHOLD};
 pub use wal_storage::{WalStorage, WalStoragePerTable};
-#[cfg(kahflane_turdb_verif)]
-pub use wal::{compute_checksum as verif_wal_compute_checksum, validate_checksum as verif_wal_validate_checksum};
 
 use eyre::{ensure, Result};
 use zerocopy::{FromBytes, Immutable, KnownLayout};
